@@ -25,6 +25,7 @@ import (
 	"strings"
 
 	"golang.org/x/mod/modfile"
+	"golang.org/x/mod/module"
 )
 
 type Config interface {
@@ -191,6 +192,11 @@ func (this *ConfigRecord) getFlags() error {
 			return fmt.Errorf("getting package: %s", err)
 		}
 		this.pkg = pkg
+	}
+
+	// The generated files import <package>/token, <package>/errors, ...
+	if err := module.CheckImportPath(this.pkg); err != nil && !*this.help {
+		return fmt.Errorf("package of the generated code: %s", err)
 	}
 
 	if len(flag.Args()) != 1 && !*this.help {
